@@ -621,6 +621,10 @@ def run_shard(spec):
             s = dict(base)
             s["individuals"] = [(0, (parents[0],)), (0, (parents[1], -1))]
             judge(s, acc, "b-nodes", nontrivial=True)
+            # a reference placed AFTER a NULL entry of the same row, and rows of three
+            s = dict(base)
+            s["individuals"] = [(0, (-1, parents[0])), (0, (-1, -1, parents[1]))]
+            judge(s, acc, "b-nodes", nontrivial=True)
         acc.sample({"fam": "b-nodes", "last": spec_json(s)})
     elif fam == "b-zero":
         # references into a table that has ZERO rows (or exactly one): every id is then out of range except
